@@ -9,6 +9,10 @@
                                       the last entry is reused for further `go`s)
       WALLEYE_VERIF_DEPTH=d0,d1,...   stop the search after iteration d (0 = no stop)
       WALLEYE_VERIF_DUMP=1            dump loop/search state to stderr
+      WALLEYE_VERIF_IO=first          the I/O thread sees the deadline as passed at once: it answers with the
+                                      first move it receives while the search thread carries on (the other
+                                      extreme of the hand-off; by default it answers after the search thread
+                                      has finished and been drained)
 
     With the feature "verif_loom" (only meaningful inside the scheduler harness, which
     provides `crate::sched`) all hooks forward to the harness.
@@ -141,6 +145,7 @@ mod std_hooks {
         clock: Option<Vec<u64>>,
         depth: Vec<u8>,
         dump: bool,
+        io_first: bool,
     }
 
     static PROC: OnceLock<ProcCfg> = OnceLock::new();
@@ -168,6 +173,7 @@ mod std_hooks {
                     .map(|v| v.iter().map(|s| s.parse().unwrap_or(0)).collect())
                     .unwrap_or_default(),
                 dump: std::env::var("WALLEYE_VERIF_DUMP").is_ok(),
+                io_first: std::env::var("WALLEYE_VERIF_IO").map(|v| v == "first").unwrap_or(false),
             }
         })
     }
@@ -198,6 +204,9 @@ mod std_hooks {
             // search thread of the binary: own consultation counter
             PROC_SEARCH.with(|c| c.set(Some((n + 1, k))));
             return Some(n >= k);
+        }
+        if cfg.io_first {
+            return Some(true);
         }
         // io thread of the binary: the deadline has passed once the search thread has finished and
         // everything it sent had a chance to be received (one try_recv per poll)
